@@ -207,12 +207,179 @@ fn run_scenario(sc: &Scenario, obs: &Arc<Mutex<Obs>>) {
     *obs.lock().unwrap() = o;
 }
 
+// ---------------------------------------------------------------------------------------------------------
+// Trace validation (DESIGN 16, "MT trace validation"): the protocol event log of a real execution of the MT
+// readers (verif_hooks::mt_trace_*) is replayed by the Lean driver through the LTS of Model/MT.lean
+// (`mt.trace`).  The environment of the LTS (how many units the source yields, how the source ends, what
+// happens to each unit) is computed HERE from the input alone, with the single-threaded readers and an
+// independent walk over the container - not taken from the log.
+
+/// Cuts an LZMA2 stream into the work units `LZMA2ReaderMT` dispatches (a unit = the chunks up to the next
+/// chunk that resets the dictionary, closed by an end marker).  Returns (units, the source ends with the end
+/// marker, the end / error is met in the same source call that pushed the last unit).
+fn lzma2_units(input: &[u8]) -> (Vec<Vec<u8>>, bool, bool) {
+    let mut units: Vec<Vec<u8>> = Vec::new();
+    let mut cur: Vec<u8> = Vec::new();
+    let mut pos = 0usize;
+    loop {
+        // one call of read_and_dispatch_chunk
+        let mut pushed = false;
+        let Some(&control) = input.get(pos) else { return (units, false, false) };
+        pos += 1;
+        if control == 0 {
+            cur.push(0);
+            units.push(std::mem::take(&mut cur));
+            return (units, true, true);
+        }
+        if (control >= 0xE0 || control == 1) && !cur.is_empty() {
+            cur.push(0);
+            units.push(std::mem::take(&mut cur));
+            pushed = true;
+        }
+        cur.push(control);
+        let hl = if control >= 0xC0 { 5 } else if control >= 0x80 { 4 } else if control <= 2 { 2 } else { return (units, false, pushed) };
+        if pos + hl > input.len() {
+            return (units, false, pushed);
+        }
+        let h = &input[pos..pos + hl];
+        let size = if control >= 0x80 { u16::from_be_bytes([h[2], h[3]]) as usize + 1 } else { u16::from_be_bytes([h[0], h[1]]) as usize + 1 };
+        cur.extend_from_slice(h);
+        pos += hl;
+        if pos + size > input.len() {
+            return (units, false, pushed);
+        }
+        cur.extend_from_slice(&input[pos..pos + size]);
+        pos += size;
+    }
+}
+
+/// The members `LZIPReaderMT::new` finds by its backward scan (None: `new` fails, no reader exists).
+fn lzip_members(input: &[u8]) -> Option<Vec<Vec<u8>>> {
+    if input.len() < 26 {
+        return None;
+    }
+    let mut out = Vec::new();
+    let mut end = input.len();
+    while end > 0 {
+        if end < 20 {
+            break;
+        }
+        let ms = u64::from_le_bytes(input[end - 8..end].try_into().unwrap());
+        if ms == 0 || ms > end as u64 {
+            return None;
+        }
+        let start = end - ms as usize;
+        if input.len() < start + 4 || &input[start..start + 4] != b"LZIP" {
+            return None;
+        }
+        out.push(input[start..end].to_vec());
+        end = start;
+    }
+    if out.is_empty() {
+        return None;
+    }
+    out.reverse();
+    Some(out)
+}
+
+/// `units=… srcok=… fused=… maxw=… initw=…` of the `mt.trace` request for a reader scenario
+fn trace_cfg(sc: &Scenario) -> Option<String> {
+    let (outcomes, srcok, fused, initw): (Vec<bool>, bool, bool, u32) = match sc.kind {
+        "lzma2r" => {
+            let (units, srcok, fused) = lzma2_units(&sc.input);
+            let oc = units
+                .iter()
+                .map(|u| {
+                    let mut out = Vec::new();
+                    LZMA2Reader::new(u.as_slice(), sc.dict, sc.preset.as_deref()).read_to_end(&mut out).is_ok()
+                })
+                .collect();
+            (oc, srcok, fused, 1)
+        }
+        "lzipr" => {
+            let ms = lzip_members(&sc.input)?;
+            let oc = ms
+                .iter()
+                .map(|m| {
+                    let mut out = Vec::new();
+                    LZIPReader::new(m.as_slice()).and_then(|mut r| r.read_to_end(&mut out)).is_ok()
+                })
+                .collect();
+            (oc, true, false, 0)
+        }
+        "lzma2w" | "lzipw" => {
+            // open-system replay (the writers' coordinator is not the LTS's): every unit meets the same options,
+            // so its outcome is decided by whether the single-threaded writer accepts them
+            let good = {
+                let sample = b"trace validation sample";
+                if sc.kind == "lzma2w" {
+                    let mut w = LZMA2Writer::new(Vec::new(), LZMA2Options { lzma_options: { let mut o = lz_opts_sc(sc); o.preset_dict = None; o }, chunk_size: None });
+                    w.write_all(sample).and_then(|_| w.flush()).is_ok()
+                } else {
+                    let mut w = LZIPWriter::new(Vec::new(), LZIPOptions { lzma_options: lz_opts_sc(sc), member_size: None });
+                    w.write_all(sample).is_ok() && w.finish().is_ok()
+                }
+            };
+            let u: String = if good { "-".into() } else { "f".repeat(64) };
+            return Some(format!("W units={u} initw=1"));
+        }
+        _ => return None,
+    };
+    let u: String = if outcomes.is_empty() { "-".into() } else { outcomes.iter().map(|&b| if b { 'o' } else { 'f' }).collect() };
+    Some(format!("units={u} srcok={} fused={} maxw={} initw={initw}", srcok as u8, fused as u8, sc.workers.clamp(1, 256)))
+}
+
+/// collects the event logs of selected executions of one (scenario, scheduler) run
+struct TraceSink {
+    every: usize,
+    cap: usize,
+    execs: usize,
+    recording: bool,
+    traces: Vec<Vec<String>>,
+}
+
+impl TraceSink {
+    /// called at the start of every execution (the log of the previous one is complete then: shuttle has run
+    /// all of its threads to their end) and once after the last
+    fn turn(&mut self, start_next: bool) {
+        if self.recording {
+            let t = lzma_rust2::verif_hooks::mt_trace_take();
+            if !t.is_empty() {
+                self.traces.push(t);
+            }
+            self.recording = false;
+        }
+        if start_next {
+            if self.traces.len() < self.cap && self.execs % self.every == 0 {
+                lzma_rust2::verif_hooks::mt_trace_start();
+                self.recording = true;
+            }
+            self.execs += 1;
+        }
+    }
+}
+
 fn st_lzma2(data: &[u8], dict: u32, chunk: u64) -> Vec<u8> {
     let mut opts = LZMA2Options { lzma_options: lz_opts(dict), chunk_size: None };
     opts.set_chunk_size(NonZeroU64::new(chunk));
     let mut w = LZMA2Writer::new(Vec::new(), opts);
     w.write_all(data).unwrap();
     w.finish().unwrap()
+}
+
+/// An LZMA2 stream of several independent runs of chunks (each `seg` bytes of the data are encoded by their own
+/// single-threaded writer, so each run starts with a dictionary reset): `LZMA2ReaderMT` cuts it into one work
+/// unit per run.  Also returns the offsets at which the runs start.
+fn st_lzma2_multi(data: &[u8], dict: u32, seg: usize) -> (Vec<u8>, Vec<usize>) {
+    let mut out = Vec::new();
+    let mut starts = Vec::new();
+    for part in data.chunks(seg.max(1)) {
+        let s = st_lzma2(part, dict, 1 << 20);
+        starts.push(out.len());
+        out.extend_from_slice(&s[..s.len() - 1]);
+    }
+    out.push(0);
+    (out, starts)
 }
 
 fn st_lzip(data: &[u8], dict: u32, member: u64) -> Vec<u8> {
@@ -244,6 +411,30 @@ fn scenarios(prop: &str, rng: &mut Rng, thorough: bool) -> Vec<Scenario> {
                 let parts = { let (_, p) = gen_partition(rng, data.len()); p };
                 v.push(Scenario { name: format!("lzma2w-{size}-w{workers}"), kind: "lzma2w", input: data.clone(), writes: parts.clone(), flush_at: if rng.chance(1, 2) { Some(0) } else { None }, ..base.clone() });
                 v.push(Scenario { name: format!("lzipw-{size}-w{workers}"), kind: "lzipw", input: data.clone(), writes: parts.clone(), ..base.clone() });
+            }
+            if (prop == "C08" || prop == "C09" || prop == "C10") && size > 0 {
+                // LZMA2 streams that really consist of several work units (the single-threaded writer resets the
+                // dictionary only once, so `l2` above is ONE unit): valid, a damaged unit in the middle, cut inside a
+                // unit, cut directly behind the control byte that opens a unit, dropped early
+                let (multi, starts) = st_lzma2_multi(&data, dict, (data.len() / 5).max(600));
+                if prop != "C09" {
+                    v.push(Scenario { name: format!("lzma2r-multi-valid-{size}-w{workers}"), kind: "lzma2r", input: multi.clone(), expect: Some(data.clone()), ..base.clone() });
+                }
+                if prop == "C10" {
+                    for drop_at in [1usize, 4] {
+                        v.push(Scenario { name: format!("lzma2r-multi-drop{drop_at}-{size}-w{workers}"), kind: "lzma2r", input: multi.clone(), expect: Some(data.clone()), reads_before_drop: Some(drop_at), ..base.clone() });
+                    }
+                }
+                if prop != "C08" && starts.len() >= 3 {
+                    let mid = starts[starts.len() / 2];
+                    let mut m = multi.clone();
+                    let p = mid + 7 + rng.below(40) as usize;
+                    m[p] ^= 0x5A;
+                    v.push(Scenario { name: format!("lzma2r-multi-flip@{p}-{size}-w{workers}"), kind: "lzma2r", input: m, expect: None, may_ok: true, ..base.clone() });
+                    v.push(Scenario { name: format!("lzma2r-multi-truncctl-{size}-w{workers}"), kind: "lzma2r", input: multi[..mid + 1].to_vec(), expect: None, ..base.clone() });
+                    v.push(Scenario { name: format!("lzma2r-multi-truncmid-{size}-w{workers}"), kind: "lzma2r", input: multi[..mid + 40].to_vec(), expect: None, ..base.clone() });
+                    v.push(Scenario { name: format!("lzma2r-multi-noend-{size}-w{workers}"), kind: "lzma2r", input: multi[..multi.len() - 1].to_vec(), expect: None, ..base.clone() });
+                }
             }
             if (prop == "C08" || prop == "C10") && size > 0 {
                 // a source that delivers only a few bytes per read call (legal for io::Read): same bytes as the
@@ -403,6 +594,9 @@ fn main() {
     let base_iters: usize = if thorough { 3000 } else if seed >= 1000 { 1500 } else { 150 };
     let scs = scenarios(prop, &mut rng, thorough);
     install_quiet_panic_hook();
+    // trace validation: how many executions per (scenario, scheduler) are replayed through the LTS
+    let trace_cap: usize = std::env::var("VERIF_MT_TRACES").ok().and_then(|v| v.parse().ok()).unwrap_or(if thorough { 12 } else { 3 });
+    let mut traces_total = 0usize;
     for sc in &scs {
         // scenarios that depend on a narrow window (close() racing a just-woken worker) get more schedules
         let iters = if sc.name.contains("flush-one-drop") { base_iters * 8 } else { base_iters };
@@ -414,8 +608,14 @@ fn main() {
             // writers: remember the first execution's output hash to compare across schedules
             let first_hash: Arc<Mutex<Option<u64>>> = Arc::new(Mutex::new(None));
             let _ = &first_hash;
+            let tcfg = if prop != "C12MT" { trace_cfg(sc) } else { None };
+            let sink = Arc::new(Mutex::new(TraceSink { every: (iters / trace_cap.max(1)).max(1), cap: if tcfg.is_some() { trace_cap } else { 0 }, execs: 0, recording: false, traces: vec![] }));
+            let sink2 = sink.clone();
             let result = catch_unwind(AssertUnwindSafe(|| {
-                let f = move || run_scenario(&sc2, &obs2);
+                let f = move || {
+                    sink2.lock().unwrap().turn(true);
+                    run_scenario(&sc2, &obs2)
+                };
                 if sched == "random" {
                     let runner = shuttle::Runner::new(RandomScheduler::new_from_seed(sseed, iters), Default::default());
                     runner.run(f);
@@ -424,6 +624,25 @@ fn main() {
                     runner.run(f);
                 }
             }));
+            {
+                let mut sk = sink.lock().unwrap_or_else(|e| e.into_inner());
+                if result.is_ok() {
+                    sk.turn(false);
+                } else {
+                    let _ = lzma_rust2::verif_hooks::mt_trace_take();
+                }
+                if let Some(tc) = &tcfg {
+                    for t in sk.traces.drain(..) {
+                        let req = match tc.strip_prefix("W ") {
+                            Some(w) => format!("mt.wtrace {w} ev={}", t.join(",")),
+                            None => format!("mt.trace {tc} ev={}", t.join(",")),
+                        };
+                        rep.model(req, format!("ok events={}", t.len()));
+                        rep.count(&format!("trace.{}", sc.kind));
+                        traces_total += 1;
+                    }
+                }
+            }
             let o = obs.lock().unwrap().clone();
             rep.evaluations += o.runs.max(1) - 1;
             let detail = || json!({"scenario": sc.name, "kind": sc.kind, "workers": sc.workers, "input_len": sc.input.len(), "scheduler": sched, "schedule_seed": sseed, "iterations": iters, "input_hex": if sc.input.len() <= 64 { hex(&sc.input) } else { format!("fnv:{}", fnv(&sc.input)) }});
@@ -451,7 +670,7 @@ fn main() {
             }
         }
     }
-    rep.notes.push(format!("seed={seed} tier={} scenarios={}", args[2], scs.len()));
+    rep.notes.push(format!("seed={seed} tier={} scenarios={} traces_replayed_through_the_LTS={traces_total}", args[2], scs.len()));
     rep.write(outdir);
     println!("{} evaluations={} distinct={} failures={}", prop, rep.evaluations, rep.signatures.len(), rep.failures.len());
 }
